@@ -159,19 +159,62 @@ Proof.
   intros H. exists [1], [2]. eexists. split; [reflexivity|]. split; [reflexivity|].
   unfold tj_transform_extras. rewrite H. vm_compute. reflexivity.
 Qed.
-(* with a copy option that does not copy APP2, or when the second write depends on the option,
-   the profile written is the instance's *)
-Theorem tj_transform_instance_icc opt wj wa src q segs : copies_app2 opt = false ->
-  Forall (fun m => marker_is_icc m = false) src -> q <> [] -> write_icc q = Some segs ->
-  filter marker_is_icc (markers_of (tj_transform_extras opt false wj wa src q)) = filter marker_is_icc (markers_of segs).
+(* ---- the tree with the iccCopied test (TJ_TRANSFORM_ICC_UNCONDITIONAL = 0) *)
+Lemma is_icc_tj_marker m : marker_is_icc m = true -> tj_icc_marker m = true.
 Proof.
-  intros Hc Hs Hq E. unfold tj_transform_extras, tj_execute_option. rewrite Hc. cbn [negb]. rewrite orb_true_r.
-  destruct q as [|q0 q']; [congruence|]. rewrite E. unfold markers_of. rewrite map_app, filter_app.
-  assert (Z0 : filter marker_is_icc (map saved_of (copy_execute opt wj wa src)) = []).
-  { rewrite copy_execute_filter. clear - Hs. induction src as [|m r IH]; [reflexivity|].
-    pose proof (Forall_inv Hs) as Hm. cbn beta in Hm. specialize (IH (Forall_inv_tail Hs)). cbn [filter].
-    destruct (copy_keeps opt wj wa m) eqn:K; cbn [map filter]; [|assumption].
-    assert (Em : marker_is_icc (saved_of (seg_of m)) = false) by (rewrite <- Hm; reflexivity).
-    rewrite Em. assumption. }
-  rewrite Z0. reflexivity.
+  unfold marker_is_icc, tj_icc_marker. intros H. apply andb_true_iff in H as (H & H3). apply andb_true_iff in H as (H1 & H2).
+  apply Z.eqb_eq in H1. apply Z.leb_le in H2. change tj_icc_copied_sig with icc_sig_reader. rewrite H3, H1.
+  change (R_ICC_MARKER =? JPEG_APP0 + 2) with true. cbn [andb]. rewrite andb_true_r. apply Z.leb_le.
+  unfold TJ_ICC_COPIED_MINLEN, R_ICC_OVERHEAD_LEN in *. lia.
 Qed.
+
+(* no ICC marker is copied when iccCopied stays FALSE *)
+Lemma not_copied_no_icc opt wj wa src : 0 <= opt < 5 -> tj_icc_copied opt src = false ->
+  filter marker_is_icc (markers_of (copy_execute opt wj wa src)) = [].
+Proof.
+  intros Ho Hc. rewrite copy_policy. unfold markers_of.
+  induction src as [|m r IH]; [reflexivity|].
+  assert (Hr : tj_icc_copied opt r = false).
+  { unfold tj_icc_copied in *. cbn [existsb] in Hc. destruct (copies_app2 opt); [|reflexivity].
+    cbn [andb] in *. apply orb_false_iff in Hc. tauto. }
+  specialize (IH Hr). cbn [filter]. destruct (policy opt wj wa m) eqn:P; [|assumption]. cbn [map filter].
+  assert (Em : marker_is_icc (saved_of (seg_of m)) = marker_is_icc m) by reflexivity. rewrite Em.
+  destruct (marker_is_icc m) eqn:I; [|assumption]. exfalso.
+  pose proof (is_icc_tj_marker m I) as T.
+  unfold tj_icc_copied in Hc. cbn [existsb] in Hc. rewrite T in Hc. cbn [orb] in Hc. rewrite andb_true_r in Hc.
+  (* the option does not copy APP2, yet the policy kept an APP2 marker *)
+  unfold marker_is_icc in I. apply andb_true_iff in I as (I & _). apply andb_true_iff in I as (I1 & _). apply Z.eqb_eq in I1.
+  unfold copies_app2 in Hc. apply orb_false_iff in Hc as (H2 & H4).
+  unfold policy in P. rewrite H2, H4 in P.
+  destruct (opt =? JCOPYOPT_NONE) eqn:E0; [discriminate|].
+  destruct (opt =? JCOPYOPT_COMMENTS) eqn:E1.
+  { rewrite I1 in P. vm_compute in P. discriminate. }
+  destruct (opt =? JCOPYOPT_ALL_EXCEPT_ICC) eqn:E3.
+  { rewrite I1 in P. change (R_ICC_MARKER =? JPEG_APP0 + 2) with true in P. cbn in P. discriminate. }
+  unfold JCOPYOPT_NONE, JCOPYOPT_COMMENTS, JCOPYOPT_ALL, JCOPYOPT_ALL_EXCEPT_ICC, JCOPYOPT_ICC in *. lia.
+Qed.
+
+(* (6) tj3Transform never emits a second profile: either the source's ICC markers were copied and nothing
+   is added, or none was copied and the ICC markers of the output are exactly the instance profile's *)
+Theorem tj_transform_single_icc : TJ_TRANSFORM_ICC_UNCONDITIONAL = 0 ->
+  forall sm copynone wj wa src q, let opt := tj_execute_option sm copynone in 0 <= opt < 5 ->
+  (tj_icc_copied opt src = true -> tj_transform_extras sm copynone wj wa src q = copy_execute opt wj wa src) /\
+  (tj_icc_copied opt src = false -> forall segs, q <> [] -> write_icc q = Some segs ->
+     filter marker_is_icc (markers_of (tj_transform_extras sm copynone wj wa src q)) = filter marker_is_icc (markers_of segs)).
+Proof.
+  intros H sm copynone wj wa src q opt Ho. unfold tj_transform_extras. fold opt. rewrite H. change (0 =? 1) with false. cbn [orb].
+  split.
+  - intros Hc. rewrite Hc. cbn [negb]. apply app_nil_r.
+  - intros Hc segs Hq E. rewrite Hc. cbn [negb]. destruct q as [|q0 q']; [congruence|]. rewrite E.
+    unfold markers_of. rewrite map_app, filter_app. fold (markers_of (copy_execute opt wj wa src)).
+    rewrite (not_copied_no_icc opt wj wa src Ho Hc). reflexivity.
+Qed.
+
+(* the input that used to give two profiles: the source profile comes back *)
+Lemma tj_transform_regression_check :
+  match write_icc [1] with
+  | Some segs => match read_icc (markers_of (tj_transform_extras JCOPYOPT_ALL false true false (markers_of segs) [2])) with
+                 | IccOk p => zlist_eqb p [1] | _ => false end
+  | None => false
+  end = negb (TJ_TRANSFORM_ICC_UNCONDITIONAL =? 1).
+Proof. vm_compute. reflexivity. Qed.
